@@ -163,4 +163,68 @@ theorem unwind_ret (v : Val) (k : List Frame) (env : List Val) (hk : SimpleFins 
     | forArrK l x r body => exact pop [] (by simp [step, stepAbrupt, loopAction]) hk (by simp [finLogs])
     | _ => exact pop [] (by rfl) hk (by simp [finLogs])
 
+/-! ## Unwinding any non-throw completion (return, break, continue) through pending finally blocks -/
+
+/-- No loop frame of `pre` consumes the completion `cp` (it is aimed at a loop further out, or is a return). -/
+def Passes (cp : Completion) : List Frame → Prop
+  | [] => True
+  | .forOfK l _ _ _ :: k => loopAction l cp = none ∧ Passes cp k
+  | .whileBodyK l _ _ :: k => loopAction l cp = none ∧ Passes cp k
+  | .forBodyK l _ _ _ :: k => loopAction l cp = none ∧ Passes cp k
+  | .forArrK l _ _ _ :: k => loopAction l cp = none ∧ Passes cp k
+  | _ :: k => Passes cp k
+
+theorem unwind_nonthrow (cp : Completion) (hcp : isThr cp = false) (pre rest : List Frame) (env : List Val)
+    (hk : SimpleFins pre) (hp : Passes cp pre) :
+    Reach { ctl := .abrupt cp, env := env, k := pre ++ rest } (finLogs pre) { ctl := .abrupt cp, env := env, k := rest } := by
+  induction pre with
+  | nil => exact Reach.refl _
+  | cons f k ih =>
+    have pop : ∀ (ev : List Event),
+        step { ctl := .abrupt cp, env := env, k := f :: (k ++ rest) } = .cont { ctl := .abrupt cp, env := env, k := k ++ rest } ev →
+        SimpleFins k → Passes cp k → finLogs (f :: k) = ev ++ finLogs k →
+        Reach { ctl := .abrupt cp, env := env, k := f :: k ++ rest } (finLogs (f :: k)) { ctl := .abrupt cp, env := env, k := rest } := by
+      intro ev hs hk' hp' hl
+      rw [hl]; exact Reach.cons hs (ih hk' hp')
+    have fin : ∀ (vs : List Val) (fb : List Stmt), fb = litLogs vs →
+        step { ctl := .abrupt cp, env := env, k := f :: (k ++ rest) }
+          = .cont { ctl := .exec fb, env := env, k := .finK (some cp) :: (k ++ rest) } [] →
+        SimpleFins k → Passes cp k → finLogs (f :: k) = blockLogs fb ++ finLogs k →
+        Reach { ctl := .abrupt cp, env := env, k := f :: k ++ rest } (finLogs (f :: k)) { ctl := .abrupt cp, env := env, k := rest } := by
+      intro vs fb hfb hs hk' hp' hl
+      subst hfb
+      rw [hl, blockLogs_litLogs]
+      have r1 := reach_litLogs vs env (.finK (some cp) :: (k ++ rest))
+      have s2 : step { ctl := .val .undef, env := env, k := .finK (some cp) :: (k ++ rest) }
+          = .cont { ctl := .abrupt cp, env := env, k := k ++ rest } [] := by rfl
+      have := Reach.cons hs (Reach.trans r1 (Reach.cons s2 (ih hk' hp')))
+      simpa using this
+    cases f with
+    | tryK cc fo =>
+      cases fo with
+      | none => exact pop [] (by cases cp <;> cases cc <;> simp_all [step, stepAbrupt, isThr]) hk hp (by simp [finLogs])
+      | some fb =>
+        obtain ⟨⟨vs, hvs⟩, hk'⟩ := hk
+        exact fin vs fb hvs (by cases cp <;> cases cc <;> simp_all [step, stepAbrupt, isThr]) hk' hp (by simp [finLogs])
+    | catchK fo =>
+      cases fo with
+      | none => exact pop [] (by rfl) hk hp (by simp [finLogs])
+      | some fb =>
+        obtain ⟨⟨vs, hvs⟩, hk'⟩ := hk
+        exact fin vs fb hvs (by rfl) hk' hp (by simp [finLogs])
+    | forOfK l x it body =>
+      obtain ⟨hc, hk'⟩ := hk
+      obtain ⟨hl, hp'⟩ := hp
+      refine pop (iterClose it).1 ?_ hk' hp' (by simp [finLogs])
+      simp only [step, stepAbrupt, hl]
+      generalize hcl : iterClose it = cl at hc
+      obtain ⟨ev, err⟩ := cl
+      simp only at hc
+      subst hc
+      simp
+    | whileBodyK l cd body => exact pop [] (by simp [step, stepAbrupt, hp.1]) hk hp.2 (by simp [finLogs])
+    | forBodyK l x n body => exact pop [] (by simp [step, stepAbrupt, hp.1]) hk hp.2 (by simp [finLogs])
+    | forArrK l x r body => exact pop [] (by simp [step, stepAbrupt, hp.1]) hk hp.2 (by simp [finLogs])
+    | _ => exact pop [] (by rfl) hk hp (by simp [finLogs])
+
 end GojaModel.C09
